@@ -66,6 +66,20 @@ SpacePropsOk(x, p, i) ==
   /\ Abs(p.spaces[i].area - SpaceAreaOf(x, x.spaces[i])) <= 4 + Len(x.walls) \div 8
   /\ "hnet" \notin DOMAIN p.spaces[i] \/ p.spaces[i].hnet = None \/ Abs(p.spaces[i].hnet - NetHeightOfSpace(x, i)) <= 3
 
+\* a space under several ceiling elements of different thickness: the code takes the net height from the first one it
+\* finds (a documented simplification, recorded as a known finding: the indicators then depend on the order of the walls)
+ThickOfWall(x, w) == IF Has(x.wallcons, w.cons) THEN x.wallcons[IdxOf(x.wallcons, w.cons)].thick ELSE 0
+CeilingsOf(x, sid) == { i \in DOMAIN x.walls : \/ (x.walls[i].tilt = "TOP" /\ x.walls[i].space = sid)
+                                                \/ (x.walls[i].tilt = "BOTTOM" /\ x.walls[i].next = sid) }
+SeveralCeilings(x) == \E s \in DOMAIN x.spaces : \E i, j \in CeilingsOf(x, x.spaces[s].id) :
+                         ThickOfWall(x, x.walls[i]) # ThickOfWall(x, x.walls[j])
+
+\* a space with several ground floor slabs of different area: the exposed perimeter and characteristic dimension are
+\* taken from the first one (the code logs a warning; known finding)
+SlabsOf(x, sid) == { i \in DOMAIN x.walls : x.walls[i].space = sid /\ x.walls[i].tilt = "BOTTOM" /\ x.walls[i].bounds = "GROUND" }
+SeveralSlabs(x) == \E s \in DOMAIN x.spaces : \E i, j \in SlabsOf(x, x.spaces[s].id) : x.walls[i].area # x.walls[j].area
+
+
 (******************************* tolerances ********************************)
 \* |a - b| <= abs + r5 * 10^-5 * max(a, b)   (r5 = 20 is a relative tolerance of 2 * 10^-4: the
 \* implementation accumulates in 32 bit floats)
